@@ -84,6 +84,7 @@ def main(argv=None):
     unconfirmed = 0
     flaky = []
     deferred = []
+    timing_artefacts = []
     for viol in part.violations:
         if (prop, viol["key"]) not in known and len(new) >= MAX_REPORTED:
             unconfirmed += 1            # beyond what is reported: not re-executed
@@ -117,6 +118,13 @@ def main(argv=None):
         # recorded case in two *fresh* interpreters: identical non-empty results are a
         # deterministic, self-contained violation; anything else is a harness error.
         fresh = [_fresh_replay(prop, viol["case"]) for _ in range(2)]
+        if viol["key"].startswith("loop") and fresh[0] == [] and fresh[1] == [] \
+                and again[0] == [] and again[1] == []:
+            # A wall-clock watchdog fired during the exploration, and the very same case returns
+            # in time on four further executions (two here, two in fresh interpreters): the
+            # machine was starved, the code terminates.  Not a violation, not a harness error.
+            timing_artefacts.append(viol["key"])
+            continue
         if not fresh[0] or fresh[0] != fresh[1]:
             flaky.append(f"violation {viol['key']} did not reproduce identically "
                          f"(in-process {again[0]!r} vs {again[1]!r}; fresh processes "
@@ -134,6 +142,9 @@ def main(argv=None):
         flaky = [f"violation {v['key']} was seen during the exploration but depends on what "
                  f"was called before it" for v, _a in deferred[:2]]
 
+    for key in timing_artefacts[:3]:
+        print(f"  note (not counted): the watchdog fired on {key[:120]} during the exploration; "
+              f"the case returns in time when run again - a starved machine, not a hang")
     if flaky and not new:
         # No single case reproduces on its own.  If the code under test carries state from one
         # call to the next *with different arguments* (a cache keyed too weakly), a violation
